@@ -116,9 +116,13 @@ def pressure(ctx, M):
     F = ctx.facts
     dec_fns = {s["fn"].name for s in M.dec_sites}
     n = 0
-    for name, f in F.fns.items():
-        if f.kind == "Closure" or not f.rec.get("ret", "").endswith("CommandStatus"):
+    import inline
+    for name, f0 in F.fns.items():
+        if f0.kind == "Closure" or not f0.rec.get("ret", "").endswith("CommandStatus"):
             continue
+        # the release may sit in a private helper of the function that owns the guard: look at the function with such
+        # helpers spliced in
+        f = inline.expand(F, f0, lambda n_: M.keep_in_expansion(n_) or n_ in dec_fns)
         dels = [(b, t) for b, t in f.calls() if t.get("rpath") in dec_fns]
         if not dels:
             continue
@@ -160,7 +164,21 @@ def pressure(ctx, M):
                 if o[0] == "param" and "KeyDescription" in g.locals[o[1]]["ty"]:
                     w = ("field", o, "weight")
             fits = [(b, ft) for b, expr, tt, ft in bool_branches(g) if w is not None and M.is_query_field(expr, w, "1")]
-            ctx.check(bool(fits) and all(g.edge_dominates(e, bb) for e in fits), "R03.2", "%s|eviction-entered-only-when-not-fitting" % g.name,
+            ok_dom = bool(fits) and all(g.edge_dominates(e, bb) for e in fits)
+            if not ok_dom and w is not None:
+                # path-sensitive form (the query's answer routed through a local enum / helper)
+                from sym import ipaths
+                status = {n_ for n_, h_ in F.fns.items() if h_.rec.get("ret", "").endswith("CommandStatus")}
+                n_through, ok_dom = 0, True
+                for p_ in ipaths(F, g, stop=lambda n_: n_ in M.inc_defs or n_ in M.qnames or n_ in status, depth=2):
+                    ev = [e for e in p_.events if e.fn is g and e.bb == bb]
+                    if not ev:
+                        continue
+                    n_through += 1
+                    if not any(a[0] == "bool" and M.is_query_field(a[1], w, "1") and not a[2] and a[4] < ev[0].seq for a in p_.atoms):
+                        ok_dom = False
+                ok_dom = ok_dom and n_through >= 1
+            ctx.check(ok_dom, "R03.2", "%s|eviction-entered-only-when-not-fitting" % g.name,
                       "the eviction loop is entered only after the space query reported that the incoming key does not fit", g.where(bb))
     ctx.floor("R03.2", "victim release sites on the admission path", n, 1)
 
